@@ -314,6 +314,21 @@ Ltac chain_level :=
   intros acc ? ? ? ?; destruct acc; simpl in *; try discriminate;
   match goal with H : Some _ = Some _ |- _ => inversion H; subst; simpl; lia end.
 
+Lemma nine n : n <= 5 -> n <= 9. Proof. lia. Qed.
+
+Definition add_chain_node :=
+  chain_node 4 RAdd chains_add (fun a => ex_intro _ OAdd (conj eq_refl eq_refl)) chains_add_spec eq_refl
+    ltac:(chain_level) ltac:(lia).
+Definition mul_chain_node :=
+  chain_node 5 RMul chains_mul (fun a => ex_intro _ OMul (conj eq_refl eq_refl)) chains_mul_spec eq_refl
+    ltac:(chain_level) ltac:(lia).
+Definition and_chain_node :=
+  chain_node 1 RAnd chains_and (fun a => ex_intro _ OAnd (conj eq_refl eq_refl)) chains_and_spec eq_refl
+    ltac:(chain_level) ltac:(lia).
+Definition or_chain_node :=
+  chain_node 0 ROr chains_or (fun a => ex_intro _ OOr (conj eq_refl eq_refl)) chains_or_spec eq_refl
+    ltac:(chain_level) ltac:(lia).
+
 (** * The main induction *)
 
 Lemma int_tokens_derives z : Derives (level_of (IntegerLiteral z)) (int_tokens z) (embed_int z).
@@ -330,19 +345,22 @@ Proof.
   - apply D_float.
 Qed.
 
+Lemma base_type_name t : is_base t = true -> exists s, base_name t = Some s /\ type_name t = [TTypeName s].
+Proof.
+  unfold is_base. destruct t; simpl; intros H; try discriminate H; eexists; split; reflexivity.
+Qed.
+
 Lemma sizeof_times_derives t n :
-  IH n -> 4 <= level_of n -> is_Multiply n = false ->
+  is_base t = true -> IH n -> 4 <= level_of n -> is_Multiply n = false ->
   Derives 5 (TSizeof :: TLParen :: type_name t ++ TRParen :: TStar :: parens (cprint n) n [KAdd; KSubtract])
     (CBin OMul (CSizeof t) (embed (rot true n RNone))).
 Proof.
-  intros In Hl Hm.
-  change (TSizeof :: TLParen :: type_name t ++ TRParen :: TStar :: parens (cprint n) n [KAdd; KSubtract])
-    with ((TSizeof :: TLParen :: type_name t ++ [TRParen]) ++ op_token OMul :: parens (cprint n) n [KAdd; KSubtract]) ||
-  replace (TSizeof :: TLParen :: type_name t ++ TRParen :: TStar :: parens (cprint n) n [KAdd; KSubtract])
-    with ((TSizeof :: TLParen :: type_name t ++ [TRParen]) ++ op_token OMul :: parens (cprint n) n [KAdd; KSubtract])
-    by (simpl; rewrite <- app_assoc; reflexivity).
+  intros Hb In Hl Hm. destruct (base_type_name t Hb) as (s & Es & ->).
+  change ([TTypeName s] ++ TRParen :: TStar :: ?x) with (TTypeName s :: TRParen :: TStar :: x).
+  change (TSizeof :: TLParen :: TTypeName s :: TRParen :: TStar :: ?x)
+    with ([TSizeof; TLParen; TTypeName s; TRParen] ++ op_token OMul :: x).
   apply (D_bin OMul).
-  - apply derives_sub with (l := 7); [apply D_sizeof | simpl; lia].
+  - apply derives_sub with (l := 7); [apply D_sizeof; exact Es | simpl; lia].
   - simpl. apply plain_operand; [exact In | | lia].
     intros Ei. apply level_mul_class; [| exact Hm]. apply level_add_class; assumption.
 Qed.
@@ -375,44 +393,39 @@ Proof.
     apply generic_node with (e' := BooleanLiteral value); [| reflexivity | level_ne].
     simpl. destruct value; [apply D_true | apply D_false].
   - (* Add *)
-    apply chain_node with (lvl := 4) (mk := RAdd) (chains := chains_add) (l := e1)
-                          (ksl := []) (res := fun L' => rot true e2 (RAdd L'))
-                          (rts := TPlus :: cprint e2);
-      try reflexivity; auto.
-    + intros a; exists OAdd; auto.
-    + apply chains_add_spec.
-    + chain_level.
-    + lia.
+    apply (add_chain_node (Add e1 e2) e1 [] (fun L' => rot true e2 (RAdd L')) (TPlus :: cprint e2)).
+    + reflexivity.
+    + intros; reflexivity.
+    + reflexivity.
+    + assumption.
     + discriminate.
-    + apply (chain_right RAdd OAdd e2 []); auto; discriminate.
+    + intros _; lia.
+    + apply (chain_right RAdd OAdd e2 []); auto; try discriminate; try (intros _; simpl; lia).
   - (* Subtract *)
-    apply chain_node with (lvl := 4) (mk := RAdd) (chains := chains_add) (l := e1)
-                          (ksl := []) (res := fun L' => Subtract L' (rot true e2 RNone))
-                          (rts := TMinus :: parens (cprint e2) e2 [KAdd; KSubtract]);
-      try reflexivity; auto.
-    + intros a; exists OAdd; auto.
-    + apply chains_add_spec.
-    + chain_level.
-    + lia.
+    apply (add_chain_node (Subtract e1 e2) e1 [] (fun L' => Subtract L' (rot true e2 RNone))
+             (TMinus :: parens (cprint e2) e2 [KAdd; KSubtract])).
+    + reflexivity.
+    + intros; reflexivity.
+    + reflexivity.
+    + assumption.
     + discriminate.
-    + intros L' preL HL. simpl. apply (D_bin OSub); [exact HL |].
-      apply plain_operand; [exact IHe2 | | simpl; lia].
-      intros Ei. simpl. apply level_add_class; assumption.
+    + intros _; lia.
+    + intros L' preL HL. apply (D_bin OSub); [exact HL |].
+      apply plain_operand; [assumption | | simpl; lia].
+      intros Ei. simpl. apply level_add_class; [lia | exact Ei].
   - (* Multiply *)
-    apply chain_node with (lvl := 5) (mk := RMul) (chains := chains_mul) (l := e1)
-                          (ksl := [KAdd; KSubtract]) (res := fun L' => rot true e2 (RMul L'))
-                          (rts := TStar :: parens (cprint e2) e2 [KAdd; KSubtract]);
-      try reflexivity; auto.
-    + intros a; exists OMul; auto.
-    + apply chains_mul_spec.
-    + chain_level.
-    + lia.
+    apply (mul_chain_node (Multiply e1 e2) e1 [KAdd; KSubtract] (fun L' => rot true e2 (RMul L'))
+             (TStar :: parens (cprint e2) e2 [KAdd; KSubtract])).
+    + reflexivity.
+    + intros; reflexivity.
+    + reflexivity.
+    + assumption.
     + intros acc Ei Hch. apply rot_wrapped_addsub; [exact Ei |].
       destruct acc; simpl in *; try discriminate; auto.
-    + intros Ei. apply level_add_class; assumption.
+    + intros Ei. apply level_add_class; [lia | exact Ei].
     + apply (chain_right RMul OMul e2 [KAdd; KSubtract]); auto.
       * intros Ei a. apply rot_wrapped_addsub; auto.
-      * intros Ei. simpl. apply level_add_class; assumption.
+      * intros Ei. simpl. apply level_add_class; [lia | exact Ei].
   - (* Equal *)
     apply (binary_node OEq) with (l := e1) (r := e2); simpl; auto; lia.
   - (* NotEqual *)
@@ -426,32 +439,27 @@ Proof.
   - (* LessThanOrEqual *)
     apply (binary_node OLe) with (l := e1) (r := e2); simpl; auto; lia.
   - (* And *)
-    apply chain_node with (lvl := 1) (mk := RAnd) (chains := chains_and) (l := e1)
-                          (ksl := [KOr]) (res := fun L' => rot true e2 (RAnd L'))
-                          (rts := TAndAnd :: parens (cprint e2) e2 [KOr]);
-      try reflexivity; auto.
-    + intros a; exists OAnd; auto.
-    + apply chains_and_spec.
-    + chain_level.
-    + lia.
+    apply (and_chain_node (And e1 e2) e1 [KOr] (fun L' => rot true e2 (RAnd L'))
+             (TAndAnd :: parens (cprint e2) e2 [KOr])).
+    + reflexivity.
+    + intros; reflexivity.
+    + reflexivity.
+    + assumption.
     + intros acc Ei Hch. apply rot_wrapped_or; [exact Ei |].
       destruct acc; simpl in *; try discriminate; auto.
-    + intros Ei. apply level_and_class; assumption.
+    + intros Ei. apply level_and_class; exact Ei.
     + apply (chain_right RAnd OAnd e2 [KOr]); auto.
       * intros Ei a. apply rot_wrapped_or; auto.
-      * intros Ei. simpl. apply level_and_class; assumption.
+      * intros Ei. simpl. apply level_and_class; exact Ei.
   - (* Or *)
-    apply chain_node with (lvl := 0) (mk := ROr) (chains := chains_or) (l := e1)
-                          (ksl := []) (res := fun L' => rot true e2 (ROr L'))
-                          (rts := TOrOr :: cprint e2);
-      try reflexivity; auto.
-    + intros a; exists OOr; auto.
-    + apply chains_or_spec.
-    + chain_level.
-    + lia.
+    apply (or_chain_node (Or e1 e2) e1 [] (fun L' => rot true e2 (ROr L')) (TOrOr :: cprint e2)).
+    + reflexivity.
+    + intros; reflexivity.
+    + reflexivity.
+    + assumption.
     + discriminate.
-    + intros; lia.
-    + apply (chain_right ROr OOr e2 []); auto; try discriminate. intros; simpl; lia.
+    + intros _; lia.
+    + apply (chain_right ROr OOr e2 []); auto; try discriminate; try (intros _; simpl; lia).
   - (* Max *)
     apply generic_node with (e' := Max (rot true e1 RNone) (rot true e2 RNone));
       [| reflexivity | level_ne].
@@ -468,7 +476,7 @@ Proof.
     + apply plain_operand_raw; [assumption | lia].
   - (* BooleanToInteger *)
     apply generic_node with (e' := BooleanToInteger (rot true e RNone)); [| reflexivity | level_ne].
-    simpl. apply (D_cast TInteger).
+    simpl. apply (D_cast TInteger "int32_t"%string); [reflexivity |].
     apply derives_paren with (l := level_of e); [| lia]. apply plain_operand_raw; [assumption | lia].
   - (* ArrayAllocate *)
     apply generic_node with (e' := ArrayAllocate element_type (rot true e RNone));
